@@ -52,8 +52,8 @@ def known_class(line, impl_result, mon_result):
 def generate(rng, tier):
     k = 1 if tier == "quick" else 12
     return bc.mk_cases(rng, [
-        ("life", 700 * k, bc.gen_lifecycle),
-        ("follow", 60 * k, bc.gen_followup),
+        ("life", 2000 * k, bc.gen_lifecycle),
+        ("follow", 200 * k, bc.gen_followup),
         ("long", 8 * k, bc.gen_long),
         ("case", 40 * k, lambda r, i: bc.gen_special(r, i, "case")),
         ("twotypes", 30 * k, lambda r, i: bc.gen_special(r, i, "two-types")),
